@@ -944,7 +944,7 @@ package anytype
 //@   ensures  true
 
 //@ extern encoding/json.Indent
-//@   assigns  everything
+//@   assigns  nothing
 //@   panics_iff false
 //@   ensures  true
 
@@ -953,14 +953,14 @@ package anytype
 //@   panics_iff false
 //@   ensures  true
 
-//@ func (*list).FormatString nowf [C16]
+//@ func (*list).FormatString [C16 C09]
 //@   requires invL(ego)
-//@   assigns  everything
+//@   assigns  nothing
 //@   panics_iff indent < 0 || indent > 10
 
-//@ func (*object).FormatString nowf [C16]
+//@ func (*object).FormatString [C16 C09]
 //@   requires invO(ego)
-//@   assigns  everything
+//@   assigns  nothing
 //@   panics_iff indent < 0 || indent > 10
 
 // ---------------------------------------------------------------------------
